@@ -248,9 +248,9 @@ func (c *Ctx) Finish(proof *proofInfo, rule string, trusted []string, assumption
 		"property_id": c.Prop, "tier": c.Tier, "seed": c.Seed, "level": level, "coverage": cov,
 		"assumptions": assumptions, "wall_s": wall, "violations": viol,
 	}
-	os.MkdirAll("/verif/evidence", 0o755)
+	os.MkdirAll(filepath.Join(rootDir, "evidence"), 0o755)
 	b, _ := json.MarshalIndent(ev, "", " ")
-	os.WriteFile(filepath.Join("/verif/evidence", c.Prop+".json"), b, 0o644)
+	os.WriteFile(filepath.Join(rootDir, "evidence", c.Prop+".json"), b, 0o644)
 
 	ids := make([]string, 0, len(c.known))
 	for id := range c.known {
@@ -264,11 +264,11 @@ func (c *Ctx) Finish(proof *proofInfo, rule string, trusted []string, assumption
 		fmt.Printf("OK property=%s tier=%s evaluations=%d distinct_nontrivial=%d wall=%.1fs\n", c.Prop, c.Tier, c.evals, len(c.nontriv), wall)
 		return 0
 	}
-	os.MkdirAll("/verif/replay", 0o755)
+	os.MkdirAll(filepath.Join(rootDir, "replay"), 0o755)
 	f := c.findings[0]
 	fb, _ := json.MarshalIndent(map[string]interface{}{"finding": f, "all_findings": c.findings, "seed": c.Seed, "tier": c.Tier}, "", " ")
 	sum := sha256.Sum256(fb)
-	path := fmt.Sprintf("/verif/replay/%s-%x.json", c.Prop, sum[:6])
+	path := filepath.Join(rootDir, "replay", fmt.Sprintf("%s-%x.json", c.Prop, sum[:6]))
 	os.WriteFile(path, fb, 0o644)
 	suffix := ""
 	if f.Class != "violation" {
